@@ -5,6 +5,9 @@ C06 — FIFO, LIFO and filter retrieval discipline holds, also after cancellatio
 import FsVerif.Proofs.PosExtra
 import FsVerif.Proofs.BufExtra
 import FsVerif.Proofs.Fleet
+import FsVerif.Proofs.SlotFifo
+import FsVerif.Proofs.BufFifo
+import FsVerif.Proofs.CBeltFifo
 namespace FsVerif.Props.C06
 open FsVerif PosStore
 
@@ -80,7 +83,8 @@ example : (run (init { cap := none })
 retrievals own exactly the FIRST k ready entries (FIFO) / the TOP k (LIFO), k = number of granted retrievals; a new grant binds the
 entry right behind that block: `ready[k]` (FIFO: the oldest entry nobody holds) / `ready[len - 1 - k]` (LIFO: the most recent one).
 What the order of `ready` itself is - the order in which entries became available, a released entry going back next to the block - is
-what the lock-step comparison and the C06 judge decide; no theorem states it. -/
+proved below for the FIFO BufferStore, the store inside a Fleet and the two conveyor stores (the exit is a queue); for the LIFO buffer it is
+what the lock-step comparison and the C06 judge decide. -/
 
 theorem buf_reserved_block {s : BufStore} (h : BufStore.ReachD s) : s.resItems.Perm (BufStore.resPart s) ∧ s.resEv.length = s.getRes.length :=
   ⟨(BufStore.reachD_binv h).bindItems, (BufStore.reachD_binv h).bindEv.length_eq⟩
@@ -114,5 +118,111 @@ theorem fleet_grant_binds_next {s : FleetStore} (h : FleetStore.ReachD s) {t : T
   have hk := FleetStore.reachD_kt h
   obtain ⟨e, h1, h2, _⟩ := buf_grant_binds_next hk.core hq hs
   exact ⟨e, h1, h2 (by rw [hk.cfgB])⟩
+
+
+
+/-! ### FIFO BufferStore / Buffer and the store inside a Fleet: the ready list is a queue, cancellation included
+(`free` = the ready entries no granted retrieval holds, in `ready_items` order; same four laws as for the conveyors below) -/
+
+theorem buf_fifo_grant_takes_front {s : BufStore} (h : BufStore.ReachD s) (hm : s.cfg.mode = .fifo) :
+    ∃ g, BufStore.free s = g ++ BufStore.free s.trigGet ∧ s.trigGet.resItems = s.resItems ++ g ∧ g.length ≤ 1 :=
+  BufStore.trigGet_queue (BufStore.reachD_binv h).bindEv.length_eq hm
+
+theorem buf_fifo_available_joins_back {s : BufStore} (h : BufStore.ReachD s) (hm : s.cfg.mode = .fifo) (e : BEntry) :
+    ∃ new g, BufStore.free s ++ new = g ++ BufStore.free (s.move e) ∧ (s.move e).resItems = s.resItems ++ g ∧ new.length ≤ 1 ∧ g.length ≤ 1 :=
+  BufStore.move_queue (BufStore.reachD_binv h).toPre hm e
+
+theorem buf_fifo_get_keeps_free {s : BufStore} (h : BufStore.ReachD s) (hm : s.cfg.mode = .fifo) (p tid : Nat) :
+    BufStore.free (s.get p tid).1 = BufStore.free s :=
+  BufStore.get_queue (BufStore.reachD_binv h).toPre hm p tid
+
+theorem buf_fifo_cancel_releases_to_front {s : BufStore} (h : BufStore.ReachD s) (hm : s.cfg.mode = .fifo) (tid : Nat) :
+    ∃ rel g base, rel ++ BufStore.free s = g ++ BufStore.free (s.cancelGet tid).1 ∧ (s.cancelGet tid).1.resItems = base ++ g ∧ g.length ≤ 1 ∧
+      ((rel = [] ∧ base = s.resItems) ∨
+       (∃ t e, findTok s.getRes tid = some t ∧ s.resItems[s.resEv.idxOf t]? = some e ∧ rel = [e] ∧
+               base = s.resItems.eraseIdx (s.resEv.idxOf t))) :=
+  BufStore.cancelGet_queue (BufStore.reachD_binv h).toPre hm tid
+
+theorem fleet_delivery_joins_back {s : FleetStore} (h : FleetStore.ReachD s) (e : BEntry) :
+    ∃ new g, BufStore.free s.b ++ new = g ++ BufStore.free (s.moveOne e).b ∧ (s.moveOne e).b.resItems = s.b.resItems ++ g ∧ new.length ≤ 1 ∧ g.length ≤ 1 :=
+  FleetStore.moveOne_queue (FleetStore.reachD_kt h) e
+
+theorem fleet_get_keeps_free {s : FleetStore} (h : FleetStore.ReachD s) (p tid : Nat) :
+    BufStore.free (s.b.get p tid).1 = BufStore.free s.b :=
+  BufStore.get_queue (FleetStore.reachD_kt h).core.toPre (by rw [(FleetStore.reachD_kt h).cfgB]) p tid
+
+theorem fleet_cancel_releases_to_front {s : FleetStore} (h : FleetStore.ReachD s) (tid : Nat) :
+    ∃ rel g base, rel ++ BufStore.free s.b = g ++ BufStore.free (s.b.cancelGet tid).1 ∧ (s.b.cancelGet tid).1.resItems = base ++ g ∧ g.length ≤ 1 ∧
+      ((rel = [] ∧ base = s.b.resItems) ∨
+       (∃ t e, findTok s.b.getRes tid = some t ∧ s.b.resItems[s.b.resEv.idxOf t]? = some e ∧ rel = [e] ∧
+               base = s.b.resItems.eraseIdx (s.b.resEv.idxOf t))) :=
+  BufStore.cancelGet_queue (FleetStore.reachD_kt h).core.toPre (by rw [(FleetStore.reachD_kt h).cfgB]) tid
+
+/-! ### both conveyor stores: the exit is a FIFO queue, cancellation included.
+`free s` = the items waiting at the exit that no granted retrieval holds, in `ready_items` order.  In every reachable state
+(`Bd`, Proofs/SlotBind.lean / CBeltBind.lean — no assumption on the client):
+  * a grant takes the FRONT of the free list (`…_grant_takes_front`);
+  * an item that reaches the exit joins at the BACK (`…_arrival_joins_back`: free ++ [arrived] = granted ++ free');
+  * a `get` does not touch the free list (`…_get_keeps_free`): never-reserved items keep their order;
+  * cancelling a GRANTED retrieval puts its item back at the FRONT — ahead of every never-reserved item — and nothing else moves;
+    cancelling a waiting request moves nothing (`…_cancel_releases_to_front`).
+Together: successive grants receive the items in the order in which they became available, a released item is served next. -/
+
+theorem slot_grant_takes_front (cfg : SlotCfg) (ops : List SlotBelt.Op) :
+    let s := SlotBelt.run (SlotBelt.init cfg) ops
+    ∃ g, SlotBelt.free s = g ++ SlotBelt.free s.trigGet ∧ s.trigGet.resItems = s.resItems ++ g ∧ g.length ≤ 1 :=
+  SlotBelt.trigGet_queue (SlotBelt.run_bd ops _ (SlotBelt.init_bd cfg)).to0
+
+theorem slot_arrival_joins_back (cfg : SlotCfg) (ops : List SlotBelt.Op) (q : Nat) :
+    let s := SlotBelt.run (SlotBelt.init cfg) ops
+    ∃ new g, SlotBelt.free s ++ new = g ++ SlotBelt.free (s.arrive q) ∧ (s.arrive q).resItems = s.resItems ++ g ∧ new.length ≤ 1 ∧ g.length ≤ 1 :=
+  SlotBelt.arrive_queue (SlotBelt.run_bd ops _ (SlotBelt.init_bd cfg)) q
+
+theorem slot_get_keeps_free (cfg : SlotCfg) (ops : List SlotBelt.Op) (p tid : Nat) :
+    let s := SlotBelt.run (SlotBelt.init cfg) ops
+    SlotBelt.free (s.get p tid).1 = SlotBelt.free s :=
+  SlotBelt.get_queue (SlotBelt.run_bd ops _ (SlotBelt.init_bd cfg)) p tid
+
+theorem slot_cancel_releases_to_front (cfg : SlotCfg) (ops : List SlotBelt.Op) (tid : Nat) :
+    let s := SlotBelt.run (SlotBelt.init cfg) ops
+    ∃ rel g base, rel ++ SlotBelt.free s = g ++ SlotBelt.free (s.cancelGet tid).1 ∧ (s.cancelGet tid).1.resItems = base ++ g ∧ g.length ≤ 1 ∧
+      ((rel = [] ∧ base = s.resItems) ∨
+       (∃ t e, findTok s.getRes tid = some t ∧ s.resItems[s.resEv.idxOf t]? = some e ∧ rel = [e] ∧
+               base = s.resItems.eraseIdx (s.resEv.idxOf t))) :=
+  SlotBelt.cancelGet_queue (SlotBelt.run_bd ops _ (SlotBelt.init_bd cfg)) tid
+
+theorem cbelt_grant_takes_front (cfg : CCfg) (ops : List CBelt.Op) :
+    let s := CBelt.run (CBelt.init cfg) ops
+    ∃ g, CBelt.free s = g ++ CBelt.free s.trigGet ∧ s.trigGet.resItems = s.resItems ++ g ∧ g.length ≤ 1 :=
+  CBelt.trigGet_queue (CBelt.run_bd ops _ (CBelt.init_bd cfg)).to0
+
+theorem cbelt_arrival_joins_back (cfg : CCfg) (ops : List CBelt.Op) (p : MProc) :
+    let s := CBelt.run (CBelt.init cfg) ops
+    ∃ new g, CBelt.free s ++ new = g ++ CBelt.free (s.arrive p) ∧ (s.arrive p).resItems = s.resItems ++ g ∧ new.length ≤ 1 ∧ g.length ≤ 1 :=
+  CBelt.arrive_queue (CBelt.run_bd ops _ (CBelt.init_bd cfg)) p
+
+theorem cbelt_get_keeps_free (cfg : CCfg) (ops : List CBelt.Op) (p tid : Nat) :
+    let s := CBelt.run (CBelt.init cfg) ops
+    CBelt.free (s.get p tid).1 = CBelt.free s :=
+  CBelt.get_queue (CBelt.run_bd ops _ (CBelt.init_bd cfg)) p tid
+
+theorem cbelt_cancel_releases_to_front (cfg : CCfg) (ops : List CBelt.Op) (tid : Nat) :
+    let s := CBelt.run (CBelt.init cfg) ops
+    ∃ rel g base, rel ++ CBelt.free s = g ++ CBelt.free (s.cancelGet tid).1 ∧ (s.cancelGet tid).1.resItems = base ++ g ∧ g.length ≤ 1 ∧
+      ((rel = [] ∧ base = s.resItems) ∨
+       (∃ t e, findTok s.getRes tid = some t ∧ s.resItems[s.resEv.idxOf t]? = some e ∧ rel = [e] ∧
+               base = s.resItems.eraseIdx (s.resEv.idxOf t))) :=
+  CBelt.cancelGet_queue (CBelt.run_bd ops _ (CBelt.init_bd cfg)) tid
+
+/-- non-vacuity: items 5, 6, 7 at the exit of a slotted conveyor; two retrievals granted (5, 6), the first one cancelled: 5 goes back in
+    front of the never-reserved 7, a new request is served with 5 again -/
+def demoSlotFifo : List SlotBelt.Op :=
+  [.reservePut 0, .put 0 0 { id := 5 }, .ev, .ev, .ev, .ev, .reservePut 0, .put 0 1 { id := 6 }, .ev, .ev, .ev, .ev,
+   .reservePut 0, .put 0 2 { id := 7 }, .ev, .ev, .ev, .ev, .reserveGet 1, .reserveGet 2]
+
+example : ((SlotBelt.free (SlotBelt.run (SlotBelt.init { cap := 3, delay := 1 }) demoSlotFifo)).map (·.item.id),
+           (SlotBelt.free (SlotBelt.run (SlotBelt.init { cap := 3, delay := 1 }) (demoSlotFifo ++ [.cancelGet 3]))).map (·.item.id),
+           (SlotBelt.run (SlotBelt.init { cap := 3, delay := 1 }) (demoSlotFifo ++ [.cancelGet 3, .reserveGet 3])).resItems.map (·.item.id))
+    = ([7], [5, 7], [6, 5]) := by decide +kernel
 
 end FsVerif.Props.C06
